@@ -13,6 +13,11 @@ from harness import common, family, graphs, pairs, targets
 
 
 def cases(tier, r):
+  # flat stage: single-node pairs against the Lean model (Model/Diff.lean)
+  from harness import flatdiff
+  for _ in range(700 if tier == 'quick' else 12000):
+    old, new = flatdiff.gen_pair(r)
+    yield 'flat', {'flat': True, 'old': old, 'new': new, 'mode': r.randrange(4)}
   for _ in range(1000 if tier == 'quick' else 18000):
     yield 'pair', {'seed': r.getrandbits(48), 'depth': r.choice([1, 2, 3]), 'n_edits': r.randint(1, 5),
                    'flavour': r.choice(['edits', 'edits', 'edits', 'unrelated', 'shared', 'deepcopy']),
@@ -29,6 +34,9 @@ def has_positional(c):
 
 
 def execute(case):
+  if case.get('flat'):
+    from harness import flatdiff
+    return flatdiff.execute(case, False)
   if case.get('positional'):
     # witness of the recorded finding: positional arguments
     f = targets.make_fn([['a', 'po', False], ['p', 'pk', True]])
@@ -103,10 +111,16 @@ def execute(case):
 
 
 def compare(real, model):
+  if real.get('flat'):
+    from harness import flatdiff
+    return flatdiff.compare(real, model, False)
   return []
 
 
 def oracle(case, real):
+  if real.get('flat'):
+    from harness import flatdiff
+    return flatdiff.oracle(case, real, False)
   if real['build_diff'].startswith('skipped'):
     return None
   if real['build_diff'] != 'ok':
@@ -141,6 +155,11 @@ def classify(case, fail):
 
 
 def nontrivial(case, real):
+  if real.get('flat'):
+    if real.get('build_diff') != 'ok' or not real.get('changes'):
+      return None
+    import json as _json
+    return ('flat', _json.dumps(case['old'], sort_keys=True), _json.dumps(case['new'], sort_keys=True))
   if real['build_diff'] != 'ok' or real.get('apply') != 'ok' or not real.get('n_changes'):
     return None
   return (case['seed'],)
